@@ -420,7 +420,7 @@ impl<'l> Tokenizer<'l>
 											},
 											Some(end) =>
 											{
-												match u32::from_str_radix(&self.data[pos + 3..pos + 3 + end], 16).ok().and_then(char::from_u32)
+												match u32::from_str_radix(&self.data[pos + 3..pos + 3 + end], 16).ok().filter(|_| self.data.as_bytes()[pos + 3] != b'+').and_then(char::from_u32)
 												{
 													Some(c) =>
 													{
